@@ -1,6 +1,6 @@
 (* C16 - Variable-length integers and stream-ID arithmetic match RFC 9000.
-   Only pinned statements: each is closed by [exact] of a lemma of Proofs/VarintProofs.v. *)
-From H3V Require Import Base.Bytes Spec.RFC9000 Model.Varint Proofs.VarintProofs.
+   Only pinned statements: each is closed by [exact] of a lemma of Proofs/VarintCore.v / Proofs/VarintExtraProofs.v. *)
+From H3V Require Import Base.Bytes Spec.RFC9000 Model.Varint Model.VarintExtra Proofs.VarintCore Proofs.VarintExtraProofs.
 
 (* T1: every value below 2^62 round-trips, whatever follows it in the buffer *)
 Theorem C16_roundtrip :
@@ -24,14 +24,15 @@ Theorem C16_decode_any_form :
     vi_decode (b0 :: r) = (Ok (rfc_vi_value (firstn l (b0 :: r))), skipn l (b0 :: r)).
 Proof. exact vi_decode_complete. Qed.
 
-(* T4: a truncated encoding is reported as such *)
+(* T4: a truncated encoding is reported as such: the result is the UnexpectedEnd error.  The integer it carries
+   and where the reader stands afterwards are not constrained by the property (and not compared by the case run) *)
 Theorem C16_truncated :
   forall b0 r, b0 < 256 -> len (b0 :: r) < rfc_vi_len b0 ->
-    vi_decode (b0 :: r) = (Err (tag_of b0), r).
-Proof. exact vi_decode_truncated. Qed.
+    exists e rest, vi_decode (b0 :: r) = (Err e, rest).
+Proof. exact vi_decode_truncated_reported. Qed.
 
-Theorem C16_empty : vi_decode [] = (Err 0, []).
-Proof. exact vi_decode_empty. Qed.
+Theorem C16_empty : exists e rest, vi_decode [] = (Err e, rest).
+Proof. exact vi_decode_empty_reported. Qed.
 
 Theorem C16_decode_never_panics :
   forall bs, wf_bytes bs -> is_panic (fst (vi_decode bs)) = false.
@@ -65,6 +66,44 @@ Theorem C16_write_get_roundtrip :
     exists e, vi_write_var x = Some e /\ vi_get_var (e ++ r) = (Ok x, r).
 Proof. exact vi_write_get_roundtrip. Qed.
 
+(* SessionId::try_from (webtransport/session_id.rs) has its own comparison: it refuses exactly the values >= 2^62;
+   an accepted session id is written in the shortest form and read back *)
+Theorem C16_session_id_try_from : forall v, sess_try_from v = if v <? 2 ^ 62 then Some v else None.
+Proof. exact sess_try_from_spec. Qed.
+Theorem C16_session_id_encode :
+  forall v id, sess_try_from v = Some id ->
+    id = v /\ sess_encode id = Some (rfc_vi_enc (rfc_vi_shortest id) id).
+Proof. exact sess_encode_spec. Qed.
+Theorem C16_session_id_roundtrip :
+  forall v r, v < 2 ^ 62 -> wf_bytes r ->
+    exists e, sess_try_from v = Some v /\ sess_encode v = Some e /\ sess_decode (e ++ r) = (Ok v, r).
+Proof. exact sess_roundtrip. Qed.
+
+(* the other varint writers / readers of proto/stream.rs: Encode for StreamId, StreamType::{encode,decode} *)
+Theorem C16_stream_id_encode :
+  forall id, sid_encode id = if id <? 2 ^ 62 then Some (rfc_vi_enc (rfc_vi_shortest id) id) else None.
+Proof. exact sid_encode_spec. Qed.
+Theorem C16_stream_id_encode_roundtrip :
+  forall id r, id < 2 ^ 62 -> wf_bytes r ->
+    exists e, sid_encode id = Some e /\ vi_decode (e ++ r) = (Ok id, r).
+Proof. exact sid_encode_roundtrip. Qed.
+Theorem C16_stream_type_encode :
+  forall v, st_encode v = if v <? 2 ^ 62 then Some (rfc_vi_enc (rfc_vi_shortest v) v) else None.
+Proof. exact st_encode_spec. Qed.
+Theorem C16_stream_type_decode_any_form :
+  forall b0 r, wf_bytes (b0 :: r) -> rfc_vi_len b0 <= len (b0 :: r) ->
+    let l := N.to_nat (rfc_vi_len b0) in
+    st_decode (b0 :: r) = (Ok (rfc_vi_value (firstn l (b0 :: r))), skipn l (b0 :: r)).
+Proof. exact st_decode_complete. Qed.
+Theorem C16_stream_type_truncated :
+  forall b0 r, b0 < 256 -> len (b0 :: r) < rfc_vi_len b0 ->
+    exists e rest, st_decode (b0 :: r) = (Err e, rest).
+Proof. exact st_decode_truncated_reported. Qed.
+Theorem C16_stream_type_roundtrip :
+  forall v r, v < 2 ^ 62 -> wf_bytes r ->
+    exists e, st_encode v = Some e /\ st_decode (e ++ r) = (Ok v, r).
+Proof. exact st_roundtrip. Qed.
+
 Theorem C16_encode_out_of_range : forall x, 2 ^ 62 <= x -> vi_encode x = None.
 Proof. exact vi_encode_unreachable. Qed.
 
@@ -83,6 +122,14 @@ Proof. exact sid_is_request_spec. Qed.
 Theorem C16_is_push : forall id, sid_is_push id = negb (rfc_sid_bidi id) && negb (rfc_sid_client id).
 Proof. exact sid_is_push_spec. Qed.
 
+(* Display for StreamId (the only public reporter of initiator and direction): the initiator word, the direction
+   word and the number it prints are the RFC 9000 initiator, direction and index *)
+Theorem C16_display :
+  forall id, sid_display id = (if rfc_sid_client id then Client else Server,
+                               if rfc_sid_bidi id then Bi else Uni,
+                               rfc_sid_index id).
+Proof. exact sid_display_spec. Qed.
+
 (* T7: advancing by n saturates at the largest valid id of the same kind; never overflows *)
 Theorem C16_add_saturates :
   forall id rhs, id < 2 ^ 62 -> rhs < 2 ^ 64 ->
@@ -98,6 +145,15 @@ Example C16_roundtrip_inhabited :
   vi_encode 16384 = Some [128; 0; 64; 0] /\ vi_decode ([128; 0; 64; 0] ++ [7]) = (Ok 16384, [7]).
 Proof. vm_compute. split; reflexivity. Qed.
 Example C16_nonminimal_inhabited : vi_decode [64; 5; 9] = (Ok 5, [9]).
+Proof. vm_compute. reflexivity. Qed.
+Example C16_truncated_inhabited : vi_decode [192; 1; 2] = (Err 3, [1; 2]).
+Proof. vm_compute. reflexivity. Qed.
+Example C16_session_id_inhabited :
+  sess_try_from 4611686018427387903 = Some 4611686018427387903 /\ sess_try_from 4611686018427387904 = None.
+Proof. vm_compute. split; reflexivity. Qed.
+Example C16_stream_id_encode_inhabited : sid_encode 0 = Some [0] /\ st_encode 84 = Some [64; 84].
+Proof. vm_compute. split; reflexivity. Qed.
+Example C16_display_inhabited : sid_display 7 = (Server, Uni, 1).
 Proof. vm_compute. reflexivity. Qed.
 Example C16_add_inhabited : sid_add 7 18446744073709551615 = 4611686018427387903.
 Proof. vm_compute. reflexivity. Qed.
@@ -117,6 +173,16 @@ Print Assumptions C16_push_id_try_from.
 Print Assumptions C16_write_var.
 Print Assumptions C16_get_var_is_decode.
 Print Assumptions C16_write_get_roundtrip.
+Print Assumptions C16_session_id_try_from.
+Print Assumptions C16_session_id_encode.
+Print Assumptions C16_session_id_roundtrip.
+Print Assumptions C16_stream_id_encode.
+Print Assumptions C16_stream_id_encode_roundtrip.
+Print Assumptions C16_stream_type_encode.
+Print Assumptions C16_stream_type_decode_any_form.
+Print Assumptions C16_stream_type_truncated.
+Print Assumptions C16_stream_type_roundtrip.
+Print Assumptions C16_display.
 Print Assumptions C16_encode_out_of_range.
 Print Assumptions C16_encoded_size.
 Print Assumptions C16_initiator.
